@@ -201,10 +201,10 @@ def build(stream, p):
         if cert is not None and tolv == -10 and maxit == 500:
             if not (cert["lo"] - 1e-4 - 1e-9 <= cap <= cert["hi"] + 1e-4 + 1e-9):
                 rec0 = raw[1] if repeats == 1 else raw[1][0]
-                early = repeats == 1 and len(rec0) == 2 and rec0[0] == rec0[1]
+                early = repeats == 1 and len(rec0) >= 2 and rec0[-1] == rec0[-2]
                 return ("capacity %r is not within 1e-4 of the certified log2 spectral radius bracket [%r, %r] (repeats=%d%s)"
                         % (cap, cert["lo"], cert["hi"], repeats,
-                           "; single start stopped after two equal estimates" if early else ""))
+                           "; single start stopped on two identical consecutive estimates" if early else ""))
         return None
     branching = any(sum(1 for x in r if x >= 0) >= 2 for r in rows)
     return Case(stream, p, call, impl, oracle, domain=True, nontrivial=branching,
@@ -213,7 +213,7 @@ def build(stream, p):
 
 def known_match(finding, stream, payload, why):
     return (finding["id"] == "F9" and payload["repeats"] == 1 and "certified log2 spectral radius bracket" in why
-            and "single start stopped after two equal estimates" in why)
+            and "single start stopped on two identical consecutive estimates" in why)
 
 
 # ---------------------------------------------------------------------------------------- model side
@@ -247,11 +247,16 @@ def MODEL_RUNNER(calls):
                     f.write("Eval vm_compute in (%d, cert_upper acc%d %s %d %d, cert_lower acc%d %s %s %d %d).\n"
                             % (i, i, zlist(ce["xu"]), ce["pu"], ce["qu"], i, zlist(ce["S"]), zlist(ce["xl"]), ce["pl"], ce["ql"]))
         files.append(path)
-    procs = [subprocess.Popen(["timeout", "1500", "coqc", "-Q", COQ, "DSW", "-o", p[:-2] + ".vo", p], stdout=subprocess.PIPE,
-                              stderr=subprocess.STDOUT, universal_newlines=True, cwd=work) for p in files]
+    from concurrent.futures import ThreadPoolExecutor
+
+    def run_one(p):
+        pr = subprocess.run(["timeout", "1500", "coqc", "-Q", COQ, "DSW", "-o", p[:-2] + ".vo", p], stdout=subprocess.PIPE,
+                            stderr=subprocess.STDOUT, universal_newlines=True, cwd=work)
+        return pr.stdout
+    with ThreadPoolExecutor(max_workers=6) as ex:
+        outs = list(ex.map(run_one, files))
     answers = []
-    for chunk, pr in zip(chunks, procs):
-        out = pr.communicate()[0]
+    for chunk, out in zip(chunks, outs):
         text = re.sub(r"\s+", " ", out)
         res = {}
         certs = {}
